@@ -283,6 +283,20 @@ func docComments(f *ast.File) (xs []*ast.CommentGroup) {
 	return
 }
 
+// defer stmt in the func body itself (not in nested func lit)
+func containsDefer(n ast.Node) (contains bool) {
+	ast.Inspect(n, func(n ast.Node) bool {
+		switch n.(type) {
+		case *ast.FuncLit:
+			return false
+		case *ast.DeferStmt:
+			contains = true
+		}
+		return !contains
+	})
+	return
+}
+
 func hasDeclStmt(stmts []ast.Stmt) bool {
 	for _, stmt := range stmts {
 		if isDefineStmt(stmt) || instanceof[*ast.DeclStmt](stmt) {
